@@ -202,7 +202,13 @@ type RObs struct {
 }
 
 func (o *RObs) digestParts() [][]byte {
-	return [][]byte{o.Bytes, []byte(o.Err), []byte(o.Panic), []byte(fmt.Sprint(o.Hang, o.ErrIsSrc, o.After, o.CtorErr)), o.Left}
+	// what is left in the source is a level-independent observable only after io.EOF (C05); after an
+	// error no property fixes how far the source has been read.
+	left := o.Left
+	if o.Err != "EOF" {
+		left = nil
+	}
+	return [][]byte{o.Bytes, []byte(o.Err), []byte(o.Panic), []byte(fmt.Sprint(o.Hang, o.ErrIsSrc, o.After, o.CtorErr)), left}
 }
 
 type readerAPI struct {
